@@ -3,9 +3,10 @@
 (* Generator of operation sequences for the LRU lab, and the model-level  *)
 (* check of XLru (the order never holds a key twice, a cache never        *)
 (* exceeds its capacity, what `put` evicts is the least recently used     *)
-(* key).  Kind = "idx": LruIndex operations; Kind = "cache": VectorCache  *)
-(* operations with capacity Cap, closed by a drain (Cap puts of fresh     *)
-(* keys NK+1.. whose evictions reveal the whole order).                   *)
+(* key).  kind = "idx": LruIndex operations; kind = "cache": VectorCache  *)
+(* operations with capacity cap, closed by a drain (cap puts of fresh     *)
+(* keys NK+1.. whose evictions reveal the whole order).  (kind, cap) is   *)
+(* chosen in Init from Kinds x Caps (idx has no capacity: cap = 0).       *)
 (* Exhaustive mode prints every sequence of MaxOps operations (no VIEW:   *)
 (* the real struct has more state than the model - stale links - so all   *)
 (* paths are wanted, not all model transitions); -simulate samples longer *)
@@ -13,31 +14,33 @@
 (***************************************************************************)
 EXTENDS XLru, TLC, Json
 
-CONSTANTS NK, Cap, Kind, MaxOps
+CONSTANTS NK, Kinds, Caps, MaxOps
 
-VARIABLES hist, ord, done
+VARIABLES kind, cap, hist, ord, done
 
 Keys == 1..NK
 Op(t, k) == [t |-> t, k |-> k]
 
-OpSet == IF Kind = "idx"
+OpSet == IF kind = "idx"
          THEN { Op(t, k) : t \in {"ins", "touch", "rem"}, k \in Keys } \cup { Op("pop", 0), Op("clear", 0) }
          ELSE { Op(t, k) : t \in {"put", "get", "crem"}, k \in Keys } \cup { Op("cclear", 0) }
 
-Drain == IF Kind = "cache" THEN [i \in 1..Cap |-> Op("put", NK + i)] ELSE <<>>
+Drain == IF kind = "cache" THEN [i \in 1..cap |-> Op("put", NK + i)] ELSE <<>>
 
-Init == hist = <<>> /\ ord = <<>> /\ done = FALSE
+Init == /\ hist = <<>> /\ ord = <<>> /\ done = FALSE
+        /\ \/ "idx" \in Kinds /\ kind = "idx" /\ cap = 0
+           \/ "cache" \in Kinds /\ kind = "cache" /\ cap \in Caps
 
-Step == /\ Len(hist) < MaxOps /\ ~done /\ done' = FALSE
-        /\ \E op \in OpSet : hist' = Append(hist, op) /\ ord' = Apply(ord, Cap, op).ord
+Step == /\ Len(hist) < MaxOps /\ ~done /\ done' = FALSE /\ UNCHANGED <<kind, cap>>
+        /\ \E op \in OpSet : hist' = Append(hist, op) /\ ord' = Apply(ord, cap, op).ord
 
-Finish == Len(hist) = MaxOps /\ ~done /\ done' = TRUE /\ hist' = hist \o Drain /\ ord' = ord
+Finish == Len(hist) = MaxOps /\ ~done /\ done' = TRUE /\ hist' = hist \o Drain /\ UNCHANGED <<ord, kind, cap>>
 
 Next == Step \/ Finish
 
-Emit == done => PrintT(ToJson([kind |-> Kind, cap |-> Cap, nk |-> NK, steps |-> hist]))
+Emit == done => PrintT(ToJson([kind |-> kind, cap |-> cap, nk |-> NK, steps |-> hist]))
 
 ModelOk == /\ NoDup(ord)
            /\ \A i \in DOMAIN ord : ord[i] \in Keys
-           /\ Kind = "cache" => Len(ord) <= Cap
+           /\ kind = "cache" => Len(ord) <= cap
 =============================================================================
